@@ -79,14 +79,14 @@ R.contract(f'{PRK}._submit_task', abstract=True, self_type='Obj[ProcessRunner]',
              C("forall('Fid', lambda i: implies(i in old(RUN(executor)), (i in RUN(executor)) and (RUN(executor)[i] == old(RUN(executor))[i])))", 'running entries kept'),
              C("forall('Fut', lambda f: implies(f != result, f._state == old(f._state)))", 'other futures untouched'),
              ],
-    frame=['executor._pending_future_to_thunk', 'executor._running_id_to_future_and_process', 'Fut._state', 'Fut._ex', 'Fut._result'])
+    frame=['executor._pending_future_to_thunk', 'executor._running_id_to_future_and_process', 'Fut._state', 'Fut._ex', 'Fut._result', '@STARTED'])
 
 R.implements(f'{PRK}.submit_task', f'{RN}.submit_task', self_type='Obj[ProcessRunner]',
     params={'task': 'Inst', 'task_name': 'Str', 'use_cache': 'Bool'},
     extra_requires=['INV(self)', C("forall('Fut', lambda f: implies(f in self.future_to_task, fut_task(f) == Inst_to_Task(self.future_to_task[f])))", 'P4')],
     extra_ensures=['INV(self)', C("forall('Fut', lambda f: implies(f in self.future_to_task, fut_task(f) == Inst_to_Task(self.future_to_task[f])))", 'P4')],
     frame=['self.future_to_task', 'self.executor._pending_future_to_thunk', 'self.executor._running_id_to_future_and_process',
-           'Fut._state', 'Fut._ex', 'Fut._result'],
+           'Fut._state', 'Fut._ex', 'Fut._result', '@STARTED'],
     assume_after={'_submit_task': [C("result not in self.future_to_task", 'A-fresh: a newly created Future object is not a key of any existing dict')]})
 
 R.implements(f'{PRK}.cancel', f'{RN}.cancel', self_type='Obj[ProcessRunner]',
@@ -110,7 +110,7 @@ R.implements(f'{PRK}.wait', f'{RN}.wait#yield', self_type='Obj[ProcessRunner]',
                                'A-proc: a future that finished without exception carries what _subprocess_func returned in the child for the task the future was created for, computed from the results handed over at submit/start')]},
     cand_locals=('done',),
     frame=['self.future_to_task', 'self.results_map', 'self.executor._pending_future_to_thunk',
-           'self.executor._running_id_to_future_and_process', 'Fut._state', 'Fut._ex', 'Fut._result'],
+           'self.executor._running_id_to_future_and_process', 'Fut._state', 'Fut._ex', 'Fut._result', '@STARTED', '@QEPOCH', '@DELIVERED'],
     candidates=[
         "INV(self.executor)",
         "forall('Fut', lambda f: implies(f in done, f in old(self.future_to_task)))",
